@@ -501,6 +501,10 @@ fn regression(_t: Tier) -> Vec<Case> {
     let mut h = Mat::new(4, 4);
     h.ones = vec![(0, 0), (0, 1), (1, 0), (1, 1), (1, 2), (2, 2), (2, 3), (3, 3)];
     let mut v = vec![Case { h, class: "pendant-path".into() }, Case { h: Mat::new(2, 3), class: "empty".into() }];
+    // a dimension of zero: no edges, no cycles; every query still answers
+    for (a, b) in [(0usize, 0usize), (3, 0), (0, 3), (1, 0), (0, 1)] {
+        v.push(Case { h: Mat::new(a, b), class: format!("empty-dimension-{a}x{b}") });
+    }
     // extremal graphs: the most edges a given girth allows (any bound derived from counting nodes or
     // edges is attained exactly), and complete bipartite graphs (girth 4 at any density)
     for q in [2usize, 3, 5] {
@@ -542,7 +546,7 @@ pub fn property() -> Property {
         subs: vec![
             Box::new(EnumSub {
                 name: "regression",
-                rule: "fixed: 4-cycle with a pendant path, empty graph, extremal graphs (incidence matrices of the projective planes of order 2, 3, 5: girth 6; the generalised quadrangle GQ(2,2): girth 8; complete bipartite graphs; single cycles of length 4, 6, 16, 22): every root, every bound",
+                rule: "fixed: 4-cycle with a pendant path, empty graph, matrices with a dimension of zero (0x0, 3x0, 0x3, 1x0, 0x1), extremal graphs (incidence matrices of the projective planes of order 2, 3, 5: girth 6; the generalised quadrangle GQ(2,2): girth 8; complete bipartite graphs; single cycles of length 4, 6, 16, 22): every root, every bound",
                 cases: regression,
                 check,
                 exhaustive: false,
